@@ -22,7 +22,7 @@ func ruleAEBound() *Rule {
 		ID: id,
 		Text: "In (*Raft).sendAppendEntries the loop that collects AppendEntriesRequest.Entries has an exit taken when an accumulator (entries, or bytes including len(entry.Data)) compared with a constant says the request is full; " +
 			"every cycle of the loop through the append passes that test or a test that the request is still empty; a byte bound is at most gRPC's default 4 MiB receive limit minus 1 KiB.",
-		Floor: 1,
+		Floor: 2,
 		Run: func(p *Program) []Obligation {
 			const fname = "(*Raft).sendAppendEntries"
 			fn := p.Func(fname)
@@ -80,6 +80,28 @@ func ruleAEBound() *Rule {
 				}
 			}
 			walk(stored)
+			// the entries live in memory of this invocation: the request is serialised with the mutex released, and every
+			// heartbeat round spawns another invocation for the same follower
+			priv := Obligation{Rule: id, Construct: "entries of the request live in a slice private to this invocation of " + fname, Pos: ob.Pos, Verdict: Discharged,
+				Detail: "the slice is made (or grown from nil) in this invocation"}
+			for v := range web {
+				shared := ""
+				switch x := v.(type) {
+				case *ssa.UnOp:
+					if fa, ok := x.X.(*ssa.FieldAddr); ok {
+						shared = "field " + fieldOf(fa.X.Type(), fa.Field).Name()
+					}
+				case *ssa.Parameter:
+					shared = "parameter " + x.Name()
+				case *ssa.Global:
+					shared = "global " + x.Name()
+				}
+				if shared != "" {
+					priv.Verdict = Violated
+					priv.Detail = "the request's Entries share their backing array with " + shared + ", which outlives this invocation: the transport serialises the request with the mutex released while the next invocation for the same follower overwrites the array — " +
+						"a data race, and a request whose entries are not the ones it was built with"
+				}
+			}
 			var inLoop []*ssa.Call
 			for _, a := range appends {
 				if blockReaches(a.Block(), a.Block()) {
@@ -88,7 +110,7 @@ func ruleAEBound() *Rule {
 			}
 			if len(inLoop) == 0 {
 				ob.Verdict, ob.Detail = Undecided, "the entries of the request are not collected by appending in a loop: the shape of the collection was not recognised"
-				return []Obligation{ob}
+				return []Obligation{ob, priv}
 			}
 			isLenOfWeb := func(v ssa.Value) bool {
 				c, ok := stripConv(v).(*ssa.Call)
@@ -325,7 +347,7 @@ func ruleAEBound() *Rule {
 			} else {
 				ob.Verdict, ob.Detail = Discharged, "the collecting loop leaves when the request is full, and no entry after the first is collected without that test"
 			}
-			return []Obligation{ob}
+			return []Obligation{ob, priv}
 		},
 	}
 }
